@@ -115,7 +115,7 @@ typedef struct
 {
   int tmm_mode;            // answer on TOO_MANY_MATCHES: 'c' continue, 'a' abort, 'e' error
   int n_tmm, n_slow;
-  char tmm_ids[256];       // identifiers of strings reported by TOO_MANY_MATCHES (in order)
+  char tmm_ids[32][24];    // identifiers of strings reported by TOO_MANY_MATCHES
   char out[8192]; size_t off;   // per-rule results
   const char* prefix;      // only rules whose identifier starts with this are printed ("" = all)
   int mdl_bad;             // match data length violations
@@ -128,9 +128,8 @@ static int scan_cb(YR_SCAN_CONTEXT* ctx, int msg, void* data, void* ud)
   if (msg == CALLBACK_MSG_TOO_MANY_MATCHES)
   {
     YR_STRING* s = (YR_STRING*) data;
+    if (o->n_tmm < 32) snprintf(o->tmm_ids[o->n_tmm], 24, "%s", s->identifier);
     o->n_tmm++;
-    size_t l = strlen(o->tmm_ids);
-    snprintf(o->tmm_ids + l, sizeof o->tmm_ids - l, "%s%s", l ? "," : "", s->identifier);
     return o->tmm_mode == 'c' ? CALLBACK_CONTINUE : o->tmm_mode == 'a' ? CALLBACK_ABORT : CALLBACK_ERROR;
   }
   if (msg == CALLBACK_MSG_TOO_SLOW_SCANNING) { o->n_slow++; return CALLBACK_CONTINUE; }
@@ -188,12 +187,18 @@ static void do_scan(YR_RULES* rules, const uint8_t* buf, size_t len, const char*
   int reps = (int) geti("reps", 1);
   for (int r = 0; r < reps; r++)
   {
-    o.off = 0; o.out[0] = 0; o.n_tmm = 0; o.tmm_ids[0] = 0; o.n_slow = 0;
+    o.off = 0; o.out[0] = 0; o.n_tmm = 0; o.n_slow = 0;
     double t0 = now_s();
     rc = yr_scanner_scan_mem(sc, buf, len);
     double dt = now_s() - t0;
     printf(" %s=%s", label, errname(rc));
-    if (o.n_tmm) printf(" %s.tmm=%s", label, o.tmm_ids);
+    if (o.n_tmm)
+    {
+      int k = o.n_tmm < 32 ? o.n_tmm : 32;   // sorted: the order of callbacks for one offset is not part of the property
+      qsort(o.tmm_ids, k, 24, (int (*)(const void*, const void*)) strcmp);
+      printf(" %s.tmm=", label);
+      for (int i = 0; i < k; i++) printf("%s%s", i ? "," : "", o.tmm_ids[i]);
+    }
     if (o.off) printf(" %s.res=%s", label, o.out);
     if (o.mdl_bad) printf(" %s.BAD_DATA_LENGTH=%d", label, o.mdl_bad);
     printf(" t=%s:%.3f t=slowcb:%d", label, dt, o.n_slow);
@@ -280,7 +285,7 @@ static void cmd_ml(void)
   if (n == 0) printf("-");
   printf(" count=%d", list.count);
   // list content head->tail (only when short), always a checksum and the structural invariants
-  long walked = 0; unsigned long long h = 1469598103934665603ULL; int sorted = 1, links = 1;
+  long walked = 0; unsigned long long h = 14695981039346656037ULL; int sorted = 1, links = 1;
   for (YR_MATCH* m = list.head; m; m = m->next)
   {
     walked++;
